@@ -91,7 +91,7 @@ fn plans_c06(tier: Tier) -> Vec<Plan> {
     let mut v = vec![];
     let mut c = mk("C06", 0, 3, &["a/b"], &["a/b", "a/+"]);
     c.prelude.push(Act::Sub { c: 2, f: 1, qos: 1 });
-    v.push(Plan { cfg: c.clone(), depth_by_devs: if q { vec![3, 3] } else { vec![5, 4, 4] } });
+    v.push(Plan { cfg: c.clone(), depth_by_devs: if q { vec![3, 2] } else { vec![5, 4, 4] } });
     // requests arriving while the connection is inflight-full (c0 subscribed, 101 unacked)
     let mut c1 = c.clone();
     c1.variant = 1;
@@ -459,7 +459,9 @@ pub fn explore_plans(prop: &'static str, tier: Tier, reporter: &Reporter, ev: &m
             *d += delta;
         }
         // histories without scheduling deviations are cheap: one step deeper in the quick tier
-        if tier == Tier::Quick && matches!(prop, "C08" | "C14" | "C19") {
+        // (measured on an idle machine each quick check stays under 15 s; under load the
+        // time cap ends the deepest level early and the evidence says so)
+        if tier == Tier::Quick && matches!(prop, "C08" | "C14" | "C19" | "C16") {
             p.depth_by_devs[0] += 1;
         }
     }
